@@ -222,6 +222,38 @@ def generate(rng, tier):
     return scn
 
 
+N_SWEEPS_THOROUGH = 500
+SWEEP_RULE = ('for one doctest of a sampled world, at a sampled verbosity and runner: every single failure cause that a point can '
+              'carry -- wrong answer, exception raised directly, exception from called code at depth 3, raising repr -- at every '
+              'point, one per variant')
+
+
+def sweep(rng, h):
+    base = generate(rng, 'thorough')
+    while base.get('kind') in ('trace', 'stream'):
+        base = generate(rng, 'thorough')
+    target = None
+    for op in base['ops']:
+        if op['op'] == 'run_obj':
+            target = op['dt']
+            break
+    if target is None:
+        ids = gen.doctest_ids(base['world'])
+        op0 = base['ops'][0]
+        rel = op0.get('target') or [a[5:] for a in op0['argv'] if a.startswith('PATH:')][0]
+        under = [d for d in ids if d.startswith(rel[:-3].replace('/', '.') + '::')]
+        target = rng.choice(under or ids)
+    base['plan'] = [f for f in base['plan'] if 'import' in f]
+
+    def faults(p):
+        fs = [{'kind': 'wrong'}, {'kind': 'raise', 'exc': 'ValueError', 'msg': 'fault ' + p['pid']},
+              {'kind': 'raise', 'exc': 'KeyError', 'msg': 'multi\nline', 'depth': 3}]
+        if p['form'] in W.VALUE_FORMS:
+            fs.append({'kind': 'bad_repr'})
+        return fs
+    return [base] + common.single_fault_variants(base, target, faults)
+
+
 REASON_RE = re.compile(r'^\* REASON: (\w+)', re.M)
 FILELINE_RE = re.compile(r'^  File ".*?", line (\d+),', re.M)
 
